@@ -15,8 +15,12 @@
 (* (src/resonaate/estimation/kalman/unscented_kalman_filter.py):            *)
 (*   PoseShape/PoseDynamics/PosePrior   UnscentedKalmanFilter.__init__      *)
 (*   Predict          predict(): predictStateEstimate + predictCovariance   *)
+(*   PoseCandidates/PoseCandidate   the stand-alone forecast(candidate)     *)
+(*                    calls the tasking engine makes for every candidate    *)
+(*                    sensor: a real step is predict, forecast x k, update  *)
 (*   PoseStack/PoseObs   the list[Observation] handed to update()           *)
-(*   Forecast         forecast(): STEP 0 (resample) .. STEP 4 (est_p)       *)
+(*   Forecast         forecast(): STEP 0 (resample) .. STEP 4 (est_p); on   *)
+(*                    its own (then Discard) or as the first half of update *)
 (*   Update           update(): innovation, est_x                           *)
 (*   UpdateNoObs      update([]): est_x = zeroth sigma point, est_p = pred_p*)
 (*   Advance          the posterior becomes the next step's prior           *)
@@ -42,7 +46,12 @@
 (* Property formulas (INVARIANTs): WeightsSumToOne, UnitSecondMoment,      *)
 (* TuningAdmissible, Symmetric, PSD, PosteriorIsPriorMinusKSKt,            *)
 (* PosteriorLePrior (Loewner order through principal minors),              *)
-(* NoObsReturnsPropagatedMean, and the independent algebraic cross-checks  *)
+(* NoObsReturnsPropagatedMean, ForecastUsesFreshSigmaPoints and            *)
+(* ForecastKeepsEstimate (a forecast changes nothing a later predict /     *)
+(* update depends on; sg tracks what the stored sigma points carry; the    *)
+(* named deviation StaleResampleFlag = TRUE - redraw once per measurement  *)
+(* update, flag cleared only by update() with observations - is refuted    *)
+(* by TLC on LatsDeviation), and the independent algebraic cross-checks    *)
 (* GainSolvesNormalEquations, RedrawIsTextbookKalman (Joseph form and      *)
 (* (I-KH)P-), NoRedrawIsVariant, NoOverflow.                               *)
 (*                                                                         *)
@@ -66,10 +75,24 @@ EXTENDS Integers, Sequences, FiniteSets, TLC, Json, IOUtils, QMatrices
 \*   F, Q, X, P   [n]    integer n x n matrices (n-vectors for X)
 \*   H            [n][m] integer m x n matrices
 \*   R, Y         [m]    integer m x m matrices / m-vectors
-CONSTANTS Lattices
+\*   fseqs  fseqs[step] = admissible sequences of stand-alone forecast() calls made between
+\*          predict() and update() (the tasking engine scores every candidate sensor that
+\*          way); each is a sequence of stack shapes, <<>> = no forecast in that step
+\*   CH, CR       [n][m] / [m]  H and R of the candidate observations of those forecasts
+\*   nc           number of entries of every CH[n][m] and CR[m]
+CONSTANTS Lattices,
+          StaleResampleFlag    \* named DEVIATION (FALSE = as designed): forecast() redraws the
+                               \* sigma points only while a `resampled` flag is clear and the flag
+                               \* is cleared only by update() WITH observations
 
-VARIABLES pc, sys, x, P, pred, obs, fc, est, step, hist
-vars == <<pc, sys, x, P, pred, obs, fc, est, step, hist>>
+VARIABLES pc, sys, x, P, pred, obs, fc, est, step, hist,
+          sg       \* sigma-point bookkeeping of the step:
+                   \*   sp    what the stored sigma points carry: "prop" (propagated: mean F x,
+                   \*         covariance F P F') or "pred" (redrawn from (x-, P-))
+                   \*   flag  the deviation's `resampled` flag
+                   \*   cands stand-alone forecasts still to come,  alone  obs is such a candidate
+                   \*   fcs   outputs of the stand-alone forecasts of this step
+vars == <<pc, sys, x, P, pred, obs, fc, est, step, hist, sg>>
 
 None == <<>>
 NoSys == [lat |-> 0, n |-> 0, resample |-> FALSE, tun |-> None, nsteps |-> 0, F |-> None,
@@ -91,6 +114,7 @@ AdmissibleTuning(s) == CGt0(Gamma2(s)) /\ IsNum(W0m(s)) /\ IsNum(Wi(s)) /\ IsNum
 ---------------------------------------------------------------------------
 Init == /\ pc = "start" /\ sys = NoSys /\ x = None /\ P = None /\ pred = None
         /\ obs = None /\ fc = None /\ est = None /\ step = 0 /\ hist = <<>>
+        /\ sg = [sp |-> "none", flag |-> FALSE, cands |-> <<>>, alone |-> FALSE, fcs |-> <<>>]
 
 \* the system is posed in stages so that TLC's workers share the enumeration
 PoseShape ==
@@ -100,18 +124,18 @@ PoseShape ==
           t \in SeqRange(Lattices[g].tun), k \in SeqRange(Lattices[g].nsteps) :
         /\ AdmissibleTuning([NoSys EXCEPT !.n = n, !.tun = t])
         /\ sys' = [NoSys EXCEPT !.lat = g, !.n = n, !.resample = r, !.tun = t, !.nsteps = k]
-  /\ pc' = "shape" /\ UNCHANGED <<x, P, pred, obs, fc, est, step, hist>>
+  /\ pc' = "shape" /\ UNCHANGED <<x, P, pred, obs, fc, est, step, hist, sg>>
 
 PoseDynamics ==
   /\ pc = "shape"
   /\ \E F \in SeqRange(Lat.F[sys.n]), Qm \in SeqRange(Lat.Q[sys.n]) : sys' = [sys EXCEPT !.F = F, !.Qm = Qm]
-  /\ pc' = "dynamics" /\ UNCHANGED <<x, P, pred, obs, fc, est, step, hist>>
+  /\ pc' = "dynamics" /\ UNCHANGED <<x, P, pred, obs, fc, est, step, hist, sg>>
 
 PosePrior ==
   /\ pc = "dynamics"
   /\ \E x0 \in SeqRange(Lat.X[sys.n]), P0 \in SeqRange(Lat.P[sys.n]) :
         /\ x' = QV(x0) /\ P' = QM(P0) /\ sys' = [sys EXCEPT !.x0 = x0, !.P0 = P0]
-  /\ step' = 1 /\ pc' = "predict" /\ UNCHANGED <<pred, obs, fc, est, hist>>
+  /\ step' = 1 /\ pc' = "predict" /\ UNCHANGED <<pred, obs, fc, est, hist, sg>>
 
 \* predict(): pred_x = sum Wm_i F X_i = F x;  pred_p = sum Wc_i res res' + Q = F P F' + Q
 Predict ==
@@ -121,16 +145,32 @@ Predict ==
          prop == MMul(MMul(F, P), MT(F))
          pp   == MAdd(prop, QM(sys.Qm))
      IN /\ pred' = [x |-> px, prop |-> prop, P |-> pp]
-        /\ pc' = IF MOk(px) /\ MOk(pp) THEN "stack" ELSE "overflow"
+        /\ pc' = IF MOk(px) /\ MOk(pp) THEN "cands" ELSE "overflow"
+  /\ sg' = [sg EXCEPT !.sp = "prop"]          \* the stored sigma points are the propagated ones
   /\ UNCHANGED <<sys, x, P, obs, fc, est, step, hist>>
+
+\* the stand-alone forecast() calls of this step (reward computation, one per candidate sensor)
+PoseCandidates ==
+  /\ pc = "cands"
+  /\ \E fs \in SeqRange(Lat.fseqs[step]) : sg' = [sg EXCEPT !.cands = fs]
+  /\ pc' = "stack" /\ UNCHANGED <<sys, x, P, pred, obs, fc, est, step, hist>>
+PoseCandidate ==
+  /\ pc = "stack" /\ Len(sg.cands) > 0
+  /\ LET shape == Head(sg.cands)
+     IN \E j \in 1..Lat.nc :          \* CH[n][m], CR[m] all have nc entries
+          obs' = [k \in 1..Len(shape) |->
+                    [m |-> shape[k], H |-> Lat.CH[sys.n][shape[k]][j],
+                     R |-> Lat.CR[shape[k]][j], y |-> [i \in 1..shape[k] |-> 0]]]
+  /\ sg' = [sg EXCEPT !.cands = Tail(sg.cands), !.alone = TRUE]
+  /\ pc' = "forecast" /\ UNCHANGED <<sys, x, P, pred, fc, est, step, hist>>
 
 \* the observations of this step: first the shape of the stack, then one observation at a time
 PoseStack ==
-  /\ pc = "stack"
+  /\ pc = "stack" /\ Len(sg.cands) = 0
   /\ \E shape \in SeqRange(Lat.stacks[step]) :
         /\ obs' = [k \in 1..Len(shape) |-> [m |-> shape[k], H |-> None, R |-> None, y |-> None]]
         /\ pc' = IF Len(shape) = 0 THEN "forecast" ELSE "obs"
-  /\ UNCHANGED <<sys, x, P, pred, fc, est, step, hist>>
+  /\ UNCHANGED <<sys, x, P, pred, fc, est, step, hist, sg>>
 
 NextOpen == CHOOSE k \in 1..Len(obs) : obs[k].H = None /\ \A j \in 1..(k - 1) : obs[j].H # None
 PoseObs ==
@@ -139,27 +179,39 @@ PoseObs ==
      IN \E H \in SeqRange(Lat.H[sys.n][m]), R \in SeqRange(Lat.R[m]), y \in SeqRange(Lat.Y[m]) :
            /\ obs' = [obs EXCEPT ![k] = [m |-> m, H |-> H, R |-> R, y |-> y]]
            /\ pc' = IF k = Len(obs) THEN "forecast" ELSE "obs"
-  /\ UNCHANGED <<sys, x, P, pred, fc, est, step, hist>>
+  /\ UNCHANGED <<sys, x, P, pred, fc, est, step, hist, sg>>
 
 \* the stacked measurement model of the step: H rows, block-diagonal R, stacked y (column)
 StackH == QM(VStack([k \in 1..Len(obs) |-> obs[k].H]))
 StackR == QM(BlockDiag([k \in 1..Len(obs) |-> obs[k].R]))
 StackY == QM(VStack([k \in 1..Len(obs) |-> [i \in 1..obs[k].m |-> <<obs[k].y[i]>>]]))
 
-\* forecast(): the covariance half of the measurement update
+\* forecast(): the covariance half of the measurement update; called by update() and, any
+\* number of times before it, on its own for candidate observations (sg.alone)
+Redraws == sys.resample /\ (~StaleResampleFlag \/ ~sg.flag)     \* STEP 0 redraws the sigma points
+SpNow   == IF Redraws THEN "pred" ELSE sg.sp
 Forecast ==
   /\ pc = "forecast" /\ Len(obs) > 0
   /\ LET H  == StackH
          R  == StackR
          \* STEP 0: covariance carried by the sigma points that are pushed through H
-         Pg == IF sys.resample THEN pred.P ELSE pred.prop
+         Pg == IF SpNow = "pred" THEN pred.P ELSE pred.prop
          C  == MMul(Pg, MT(H))                            \* STEP 3 cross covariance
          S  == MAdd(MMul(H, C), R)                        \*        innovation covariance
          K  == MMul(C, MInv(S))                           \*        gain
          Pp == MSub(pred.P, MMul(MMul(K, S), MT(K)))      \* STEP 4
      IN /\ fc' = [H |-> H, R |-> R, S |-> S, C |-> C, K |-> K, P |-> Pp]
-        /\ pc' = IF MOk(S) /\ MOk(K) /\ MOk(Pp) THEN "update" ELSE "overflow"
+        /\ pc' = IF MOk(S) /\ MOk(K) /\ MOk(Pp) THEN (IF sg.alone THEN "forecasted" ELSE "update")
+                 ELSE "overflow"
+  /\ sg' = [sg EXCEPT !.sp = SpNow, !.flag = IF sys.resample /\ StaleResampleFlag THEN TRUE ELSE @]
   /\ UNCHANGED <<sys, x, P, pred, obs, est, step, hist>>
+
+\* a stand-alone forecast is only looked at (reward); nothing of it is kept for the update
+Discard ==
+  /\ pc = "forecasted"
+  /\ sg' = [sg EXCEPT !.alone = FALSE, !.fcs = Append(@, [obs |-> obs, S |-> fc.S, K |-> fc.K, P |-> fc.P])]
+  /\ obs' = None /\ pc' = "stack"
+  /\ UNCHANGED <<sys, x, P, pred, fc, est, step, hist>>
 
 \* update(): the mean half
 Update ==
@@ -168,6 +220,7 @@ Update ==
          ex == MAdd(pred.x, MMul(fc.K, nu))
      IN /\ est' = [x |-> ex, P |-> fc.P]
         /\ pc' = IF MOk(ex) THEN "advance" ELSE "overflow"
+  /\ sg' = [sg EXCEPT !.flag = FALSE]
   /\ UNCHANGED <<sys, x, P, pred, obs, fc, step, hist>>
 
 \* update([]): no observation - the propagated mean and the predicted covariance are kept
@@ -176,9 +229,9 @@ UpdateNoObs ==
   /\ est' = [x |-> pred.x, P |-> pred.P]
   /\ fc' = None
   /\ pc' = "advance"
-  /\ UNCHANGED <<sys, x, P, pred, obs, step, hist>>
+  /\ UNCHANGED <<sys, x, P, pred, obs, step, hist, sg>>
 
-StepRecord == [obs |-> obs, predx |-> pred.x, predP |-> pred.P,
+StepRecord == [obs |-> obs, fcs |-> sg.fcs, predx |-> pred.x, predP |-> pred.P,
                S |-> IF Len(obs) = 0 THEN None ELSE fc.S,
                K |-> IF Len(obs) = 0 THEN None ELSE fc.K,
                estx |-> est.x, estP |-> est.P]
@@ -188,18 +241,19 @@ Advance ==
   /\ x' = est.x /\ P' = est.P
   /\ step' = step + 1
   /\ pc' = IF step = sys.nsteps THEN "done" ELSE "predict"
+  /\ sg' = [sg EXCEPT !.fcs = <<>>]
   /\ UNCHANGED <<sys, pred, obs, fc, est>>
 
-Next == PoseShape \/ PoseDynamics \/ PosePrior \/ Predict \/ PoseStack \/ PoseObs
-        \/ Forecast \/ Update \/ UpdateNoObs \/ Advance
+Next == PoseShape \/ PoseDynamics \/ PosePrior \/ Predict \/ PoseCandidates \/ PoseCandidate
+        \/ PoseStack \/ PoseObs \/ Forecast \/ Discard \/ Update \/ UpdateNoObs \/ Advance
 Spec == Init /\ [][Next]_vars
 
 ---------------------------------------------------------------------------
 \* where the pieces of the state are meaningful
 Posed   == pc \notin {"start"}
-HasPri  == pc \in {"predict", "stack", "obs", "forecast", "update", "advance"}
-HasPred == pc \in {"stack", "obs", "forecast", "update", "advance"}
-HasFc   == pc = "update"                      \* the state right after Forecast
+HasPri  == pc \in {"predict", "cands", "stack", "obs", "forecast", "forecasted", "update", "advance"}
+HasPred == pc \in {"cands", "stack", "obs", "forecast", "forecasted", "update", "advance"}
+HasFc   == pc \in {"update", "forecasted"}      \* the state right after Forecast (in update() / alone)
 HasEst  == pc = "advance"
 
 \* a relation whose own verification arithmetic is not representable is left undecided
@@ -211,11 +265,11 @@ UnitSecondMoment == Posed => CEq(CMul(Q(2), CMul(Wi(sys), Gamma2(sys))), One)
 TuningAdmissible == Posed => CGt0(Gamma2(sys))
 
 Symmetric == /\ HasPri  => IsSym(P)
-             /\ (pc = "stack") => IsSym(pred.P) /\ IsSym(pred.prop)
+             /\ (pc = "cands") => IsSym(pred.P) /\ IsSym(pred.prop)
              /\ HasFc   => IsSym(fc.S) /\ IsSym(fc.P)
              /\ HasEst  => IsSym(est.P)
 PSD       == /\ (pc = "predict") => IsPSD(P)
-             /\ (pc = "stack") => IsPSD(pred.P) /\ IsPSD(pred.prop)
+             /\ (pc = "cands") => IsPSD(pred.P) /\ IsPSD(pred.prop)
              /\ HasFc   => IsPD(fc.S) /\ IsPSD(fc.P)
              /\ HasEst  => IsPSD(est.P)
 KSKt == MMul(MMul(fc.K, fc.S), MT(fc.K))
@@ -225,6 +279,13 @@ PosteriorLePrior == /\ HasFc  => LoewnerLe(fc.P, pred.P)
 NoObsReturnsPropagatedMean ==
   (pc = "advance" /\ Len(obs) = 0) => /\ MEqU(est.x, MMul(QM(sys.F), x))
                                       /\ MEq(est.P, pred.P)
+
+\* a forecast changes nothing a later predict/update depends on: whatever forecasts happened
+\* before (in this or an earlier step), a forecast in resample mode works on sigma points
+\* redrawn from (x-, P-), so its S, K, P+ are the Kalman values of THIS step (together with
+\* RedrawIsTextbookKalman below, which is evaluated after every Forecast, stand-alone or not)
+ForecastUsesFreshSigmaPoints == (HasFc /\ sys.resample) => sg.sp = "pred"
+ForecastKeepsEstimate == [][pc = "forecast" /\ sg.alone => UNCHANGED <<x, P, pred, est>>]_vars
 
 \* ---- independent algebraic cross-checks of the reference itself ----
 GainSolvesNormalEquations == HasFc => MEqU(MMul(fc.K, fc.S), fc.C)
@@ -281,6 +342,8 @@ TunThreeQ    == T(<<3, 4>>, <<1, 1>>, <<2, 1>>, FALSE)
 TuningsAll   == <<TunDefault, TunOne, TunHalf, TunZeroW0, TunTenth, TunNegKappa, TunThreeQ>>
 
 ShapesAll == <<<<>>, <<1>>, <<2>>, <<1, 1>>, <<1, 2>>, <<2, 1>>>>     \* total dimension <= 3
+\* lattices without stand-alone forecasts
+NoFc == [fseqs |-> << << <<>> >>, << <<>> >> >>, nc |-> 0, CH |-> <<>>, CR |-> <<>>]
 
 \* ---- quick tier ----
 \* single step: every stack shape, both modes, negative-centre-weight and default tunings
@@ -294,7 +357,7 @@ LatQuick ==
    H |-> << << <<M1(1), M1(-2)>>,         <<C2(1, 1), C2(1, -2)>> >>,
             << <<R2(1, 0), R2(-1, 2)>>,   <<M2(1, 0, 0, 1), M2(1, -1, 2, 1)>> >> >>,
    R |-> << <<M1(1), M1(4)>>,       <<D2(9, 1), M2(2, 1, 1, 1)>> >>,
-   Y |-> << <<<<3>>>>,              <<<<-2, 5>>>> >>]
+   Y |-> << <<<<3>>>>,              <<<<-2, 5>>>> >>] @@ NoFc
 \* two steps: the posterior of step 1 (rational) is the prior of step 2
 LatSeqQuick ==
   [dims |-> <<1, 2>>, modes |-> <<TRUE, FALSE>>, tun |-> <<TunOne, TunTenth>>,
@@ -307,9 +370,42 @@ LatSeqQuick ==
    H |-> << << <<M1(1), M1(-2)>>,         <<C2(1, -2)>> >>,
             << <<R2(1, 0), R2(-1, 2)>>,   <<M2(1, -1, 2, 1)>> >> >>,
    R |-> << <<M1(4)>>,              <<D2(9, 1), M2(2, 1, 1, 1)>> >>,
+   Y |-> << <<<<3>>>>,              <<<<-2, 5>>>> >>] @@ NoFc
+
+\* two steps with stand-alone forecasts between predict and update (the tasking pattern
+\* predict, forecast x k, update(obs or [])), non-zero dense Q, both modes
+LatFcQuick ==
+  [dims |-> <<1, 2>>, modes |-> <<TRUE, FALSE>>, tun |-> <<TunOne, TunDefault>>,
+   nsteps |-> <<2>>,
+   stacks |-> << <<<<>>, <<1>>>>, <<<<>>, <<1>>, <<2>>>> >>,
+   fseqs  |-> << << <<>>, <<<<1>>>>, <<<<2>>, <<1>>>> >>, << <<>>, <<<<1, 2>>>> >> >>,
+   nc |-> 1,
+   CH |-> << << <<M1(2)>>, <<C2(1, -1)>> >>, << <<R2(1, 1)>>, <<M2(1, 0, 1, 2)>> >> >>,
+   CR |-> << <<M1(2)>>, <<M2(3, 1, 1, 2)>> >>,
+   F |-> << <<M1(2)>>,              <<M2(1, 1, 0, 1), M2(0, -1, 2, 0)>> >>,
+   Q |-> << <<M1(4)>>,              <<D2(1, 4), M2(2, -1, -1, 1)>> >>,
+   X |-> << <<<<3>>>>,              <<<<1, -2>>>> >>,
+   P |-> << <<M1(4), M1(1)>>,       <<M2(2, 1, 1, 2)>> >>,
+   H |-> << << <<M1(1)>>,           <<C2(1, -2)>> >>,
+            << <<R2(-1, 2)>>,       <<M2(1, -1, 2, 1)>> >> >>,
+   R |-> << <<M1(4)>>,              <<D2(9, 1)>> >>,
    Y |-> << <<<<3>>>>,              <<<<-2, 5>>>> >>]
+\* the smallest lattice on which the named deviation StaleResampleFlag shows
+LatDeviation ==
+  [LatFcQuick EXCEPT !.dims = <<1>>, !.modes = <<TRUE>>, !.tun = <<TunOne>>,
+                     !.fseqs = << <<<<<<1>>>>>>, << <<>> >> >>,
+                     !.stacks = << <<<<>>>>, <<<<1>>>> >>]
 
 \* ---- thorough tier ----
+LatFcThorough ==
+  [LatFcQuick EXCEPT !.tun = <<TunHalf, TunDefault, TunZeroW0, TunThreeQ>>,
+                     !.stacks = << <<<<>>, <<1>>, <<2>>>>, <<<<>>, <<1>>, <<2>>, <<1, 1>>>> >>,
+                     !.fseqs = << << <<>>, <<<<1>>>>, <<<<2>>, <<1>>>>, <<<<1>>, <<1>>, <<2>>>> >>,
+                                  << <<>>, <<<<1, 2>>>>, <<<<2>>>> >> >>,
+                     !.CH = << << <<M1(-1)>>, <<C2(0, 1)>> >>, << <<R2(0, 1)>>, <<M2(1, 0, 1, 2)>> >> >>,
+                     !.CR = << <<M1(9)>>, <<M2(3, 1, 1, 2)>> >>,
+                     !.H = << << <<M1(1), M1(-2)>>, <<C2(1, -2)>> >>,
+                              << <<R2(-1, 2), R2(1, 0)>>, <<M2(1, -1, 2, 1)>> >> >>]
 LatThorough ==
   [dims |-> <<1, 2>>, modes |-> <<TRUE, FALSE>>, tun |-> TuningsAll,
    nsteps |-> <<1>>, stacks |-> <<ShapesAll, <<>>>>,
@@ -322,7 +418,7 @@ LatThorough ==
             << <<R2(0, 1), R2(1, 1), R2(0, 0)>>,
                <<M2(1, 1, 1, 1), M2(0, 1, 1, 0), M2(2, 0, 1, -2)>> >> >>,
    R |-> << <<M1(9), M1(2)>>,              <<D2(1, 4), M2(4, -2, -2, 9)>> >>,
-   Y |-> << <<<<-1>>>>,                    <<<<1, 0>>>> >>]
+   Y |-> << <<<<-1>>>>,                    <<<<1, 0>>>> >>] @@ NoFc
 LatSeqThorough ==
   [dims |-> <<1, 2>>, modes |-> <<TRUE, FALSE>>,
    tun |-> <<TunHalf, TunDefault, TunZeroW0, TunNegKappa>>,
@@ -335,12 +431,13 @@ LatSeqThorough ==
    H |-> << << <<M1(1), M1(2)>>,          <<C2(1, 1), C2(0, 1)>> >>,
             << <<R2(0, 1), R2(1, 1)>>,    <<M2(1, 0, 0, 1), M2(1, 1, 0, 1)>> >> >>,
    R |-> << <<M1(1)>>,              <<D2(1, 4)>> >>,
-   Y |-> << <<<<-1>>>>,             <<<<1, 0>>>> >>]
+   Y |-> << <<<<-1>>>>,             <<<<1, 0>>>> >>] @@ NoFc
 
 \* lattices written by the driver (seeded random sub-lattices of: F, H entries in -3..3,
 \* P, Q, R random positive-definite integer matrices, x0, y in -6..6); "[]" when unused
 LatsFile     == JsonDeserialize(IOEnv.LG_LATTICES)
-LatsQuick    == <<LatQuick, LatSeqQuick>>
+LatsQuick    == <<LatQuick, LatSeqQuick, LatFcQuick>>
 LatsThorough == <<LatThorough>>
-LatsSeqThorough == <<LatSeqThorough>>
+LatsSeqThorough == <<LatSeqThorough, LatFcThorough>>
+LatsDeviation == <<LatDeviation>>
 =============================================================================
